@@ -535,12 +535,24 @@ func closureOf(fd *ast.FuncDecl) *ast.FuncLit {
 	return fl
 }
 
-var leanKeywords = map[string]bool{"end": true, "at": true, "from": true, "have": true, "show": true, "with": true,
-	"then": true, "else": true, "do": true, "fun": true, "let": true, "in": true, "match": true, "if": true,
-	"open": true, "local": true, "where": true, "by": true, "mut": true, "for": true, "return": true, "def": true,
-	"theorem": true, "instance": true, "structure": true, "namespace": true, "section": true, "variable": true,
-	"Type": true, "Prop": true, "Sort": true, "true": true, "false": true, "some": true, "none": true, "default": true,
-	"bit": false, "mask": false}
+var leanKeywords = func() map[string]bool {
+	m := map[string]bool{}
+	// Lean 4 keywords / command and term tokens that look like identifiers, plus the names the
+	// generated text itself uses (a Go local of that name would capture them)
+	for _, w := range strings.Fields(`
+		abbrev at attribute axiom break by calc catch class continue declare_syntax_cat def deriving do
+		elab else end example export extends finally for from fun have if import in inductive infix infixl
+		infixr initialize instance let local macro macro_rules match mut mutual namespace nofun nomatch
+		noncomputable notation omit opaque open partial postfix prefix private protected public register_simp_attr
+		return scoped section set_option show structure suffices syntax termination_by decreasing_by then theorem
+		throw try universe unless unsafe using variable where with forall exists Type Prop Sort
+		true false some none default pure bind min max decide ext id not and or
+		List Int Nat BitVec Bool Go Id Except Dyn Option String Unit ok error
+	`) {
+		m[w] = true
+	}
+	return m
+}()
 
 // isHashIface: the standard library's hash.Hash (modelled as a keyed-hash object, see externStubs)
 func isHashIface(ty types.Type) bool {
